@@ -24,6 +24,7 @@ class Gen:
         self.r = rng
         self.p = profile
         self.clock = 1000
+        self.live_snaps = []
 
     def group(self, gid=None, within=True):
         r = self.r
@@ -46,7 +47,7 @@ class Gen:
         mid = mid if mid is not None else r.choice(MIDS)
         clen = 8 if within or r.random() < 0.9 else r.choice([1048576, 1048577])
         ep = r.choice(EPOCHS + [None])
-        return f"save_message {mid} {gid} {r.choice([0,1,2])} {r.choice([9,1])} {r.choice(TS)} {r.choice(TS)} {r.choice([1,2,3])} {clen} {r.choice([0,1,2,3,4,5,6])} {r.choice(WRAPS)} {o(ep)} {r.choice([0,1,1,1,2,3])}"
+        return f"save_message {mid} {gid} {r.choice([0,1,2])} {r.choice([9,1])} {r.choice(TS)} {r.choice(TS)} {r.choice([1,2,3])} {clen} {r.choice([0,1,2,4,5,6])} {r.choice(WRAPS)} {o(ep)} {r.choice([0,1,1,1,2,3])}"
 
     def pm(self):
         r = self.r
@@ -59,6 +60,14 @@ class Gen:
         else:
             nl, dl, ad, rl, rlen = r.choice([5, 255, 256]), r.choice([0, 2000, 2001]), r.choice([1, 100, 101]), r.choice([0, 1, 2, 100, 101]), r.choice([24, 24, 1100])
         return f"save_welcome {r.choice(WIDS)} {r.choice(GIDS)} {r.choice(NIDS)} {nl} {dl} {ad} {rl} {rlen} {r.choice([0,1])} {r.choice([1,2,3])} {r.choice([0,0,1,2,3])} {r.choice(WRAPS)}"
+
+    def snapop(self, ops, op):
+        if self.p.get("dump_around_snap"):
+            if not ops or ops[-1] != "dump":
+                ops.append("dump")
+            ops += [op, "dump"]
+        else:
+            ops.append(op)
 
     def sweep(self, gid, sort, limit):
         """full listing, then consecutive pages until one page past the end, then last_message"""
@@ -73,13 +82,13 @@ class Gen:
         ops = []
         within = p.get("within", True)
         # most groups exist from the start so that later ops are mostly valid
-        for g in GIDS[: r.choice([2, 3, 4])]:
+        for g in GIDS[: (4 if p.get("all_groups") else r.choice([2, 3, 4]))]:
             ops.append(self.group(g, within=True).replace(f"save_group {g} {g+10}", f"save_group {g} {g+10}"))
         w = p["weights"]
         kinds = list(w)
         while len(ops) < n:
             k = r.choices(kinds, [w[x] for x in kinds])[0]
-            g = r.choice(GIDS + ([5] if r.random() < 0.1 else []))
+            g = 5 if r.random() < p.get("missing", 0.08) else r.choice(GIDS)
             if k == "group": ops.append(self.group(within=within))
             elif k == "message": ops.append(self.message(within=within))
             elif k == "pm": ops.append(self.pm())
@@ -100,7 +109,7 @@ class Gen:
             elif k == "queries": ops.append(r.choice([f"find_inval_msgs {g}", f"find_inval_pms {g}", f"failed_retry {g}",
                                                     f"pending_welcomes {o(r.choice([None,0,1,2,10000,10001]))} {o(r.choice([None,0,1,3]))}"]))
             elif k == "retry": ops.append(f"mark_retryable {r.choice(WRAPS)}")
-            elif k == "tag": ops.append(f"find_epoch_by_tag {g} {r.choice([1,2,3,4,5,6])} {r.choice(p.get('tagmodes',[0]))}")
+            elif k == "tag": ops.append(f"find_epoch_by_tag {g} {r.choice([1,2,4,5,6])} {r.choice(p.get('tagmodes',[0]))}")
             elif k == "relays":
                 rs = r.sample([1, 2, 3, 4] + p.get("longrelays", []), r.choice([0, 1, 2, 3]))
                 ops.append(f"replace_relays {g} {','.join(map(str, rs)) or '-'}")
@@ -109,13 +118,24 @@ class Gen:
             elif k == "updlast": ops.append(f"upd_last {g} {r.choice(TS)} {r.choice(TS)} {r.choice(MIDS)}")
             elif k == "snap_create":
                 self.clock += r.choice([0, 0, 1, 5])
-                ops.append(f"snap_create {g} {r.choice(SNAPS)} {self.clock}")
-                if p.get("dump_around_snap"): ops.append("dump")
+                nm = r.choice(SNAPS)
+                self.live_snaps.append((g, nm))
+                self.snapop(ops, f"snap_create {g} {nm} {self.clock}")
             elif k == "snap_rollback":
-                ops.append(f"snap_rollback {g} {r.choice(SNAPS)}")
-                if p.get("dump_around_snap"): ops.append("dump")
-            elif k == "snap_release": ops.append(f"snap_release {g} {r.choice(SNAPS)}")
-            elif k == "snap_prune": ops.append(f"snap_prune {self.clock - r.choice([0, 1, 3, 10, 2000])}")
+                if self.live_snaps and r.random() < 0.8:
+                    g, nm = r.choice(self.live_snaps)
+                    self.live_snaps = [x for x in self.live_snaps if x != (g, nm)]
+                else:
+                    nm = r.choice(SNAPS)
+                self.snapop(ops, f"snap_rollback {g} {nm}")
+            elif k == "snap_release":
+                if self.live_snaps and r.random() < 0.7:
+                    g, nm = r.choice(self.live_snaps)
+                    self.live_snaps = [x for x in self.live_snaps if x != (g, nm)]
+                else:
+                    nm = r.choice(SNAPS)
+                self.snapop(ops, f"snap_release {g} {nm}")
+            elif k == "snap_prune": self.snapop(ops, f"snap_prune {max(0, self.clock - r.choice([0, 1, 3, 10, 2000]))}")
             elif k == "dump": ops.append("dump")
         ops.append("dump")
         return ops
@@ -141,7 +161,7 @@ PROFILES = {
     "C10": {"weights": {"group": 6, "message": 10, "pm": 8, "welcome": 5, "pw": 3, "relays": 4, "secret": 4, "mls": 5,
                         "snap_create": 4, "snap_rollback": 4, "snap_release": 2, "snap_prune": 2, "inval": 4, "find": 8,
                         "queries": 8, "retry": 4, "tag": 5, "messages": 6, "last": 3, "sweep": 2, "updlast": 2, "dump": 1},
-            "within": True, "tagmodes": [0, 0, 1], "offsets": []},
+            "within": True, "tagmodes": [0, 0, 1], "offsets": [TWO63, TWO64 - 1], "all_groups": True, "missing": 0.04},
     "C06store": {"weights": {"group": 6, "message": 8, "welcome": 5, "relays": 5, "messages": 10, "queries": 5, "find": 3},
                  "within": False, "offsets": [TWO63 - 1, TWO63, TWO64 - 1, TWO64 - 2], "longrelays": [1100, 512, 513]},
 }
@@ -167,7 +187,8 @@ def load_corpus(prop):
                 cur = None
                 for l in lines:
                     if l.startswith("backend "):
-                        cur = {"id": f"corpus:{f}", "backend": l.split()[1], "ops": []}
+                        n = sum(1 for c in cases if c["id"].startswith(f"corpus:{f}") and c["backend"] == l.split()[1])
+                        cur = {"id": f"corpus:{f}#{n}", "backend": l.split()[1], "ops": []}
                         cases.append(cur)
                     elif cur is not None:
                         cur["ops"].append(l)
@@ -295,4 +316,198 @@ def oracle_c18(cases):
                 stats["tracked"] += 1
                 if F and g and (g["lastAt"], g["lastProc"], g["lastId"]) != (F[0]["created"], F[0]["processed"], F[0]["id"]):
                     fail(c, k, "pointer-not-head", f"pointer {(g['lastAt'], g['lastProc'], g['lastId'])} != head {(F[0]['created'], F[0]['processed'], F[0]['id'])}")
+    return fails, stats
+
+# ---- dump parsing ---------------------------------------------------------------------------
+
+def split_top(s, sep=";"):
+    out, depth, cur = [], 0, ""
+    for ch in s:
+        if ch in "[(":
+            depth += 1
+        elif ch in "])":
+            depth -= 1
+        if ch == sep and depth == 0:
+            out.append(cur); cur = ""
+        else:
+            cur += ch
+    if cur:
+        out.append(cur)
+    return out
+
+def sections(s, letters):
+    """'G[..]P[..]' -> {'G': '..', 'P': '..'} for single-letter section tags at depth 0"""
+    res, i = {}, 0
+    while i < len(s):
+        tag = s[i]
+        assert tag in letters and s[i + 1] == "[", (tag, s[:60])
+        depth, j = 0, i + 1
+        while True:
+            if s[j] in "[(":
+                depth += 1
+            elif s[j] in "])":
+                depth -= 1
+                if depth == 0:
+                    break
+            j += 1
+        res[tag] = s[i + 2:j]
+        i = j + 1
+    return res
+
+def parse_dump(d):
+    top = sections(d, "GPWQX")
+    groups = {}
+    for gs in split_top(top["G"]):
+        m = re.match(r"(g\([^)]*\))(.*)$", gs)
+        rec, rest = m.group(1), m.group(2)
+        # rest = r[..]s[..]n<opt>M[..]S[..]
+        mm = re.match(r"r(\[[^\]]*\])s(\[[^\]]*\])n(none|some:g\([^)]*\))M(\[.*\])S(\[[^\]]*\])$", rest)
+        gid = int(rec[2:].split(",")[0])
+        groups[gid] = {"rec": rec, "relays": mm.group(1), "secrets": mm.group(2), "nostr": mm.group(3),
+                       "msgs": mm.group(4), "snaps": [x for x in mm.group(5)[1:-1].split(";") if x]}
+    mls = {}
+    for row in split_top(top["X"]):
+        g = int(row.split(".")[0])
+        mls.setdefault(g, []).append(row)
+    return {"groups": groups, "P": top["P"], "W": top["W"], "Q": top["Q"], "mls": mls}
+
+def oracle_c09(cases):
+    """C09 on the implementation alone, from full dumps taken around every snapshot operation:
+    rollback restores the group's record/relays/secrets/MLS rows exactly as they were when the
+    snapshot was taken, consumes only that snapshot, and changes nothing else (other groups, ALL
+    messages, processed messages, welcomes, other snapshots); create/release/prune/list change no
+    live state; re-taking a name succeeds and replaces; a refused rollback changes nothing."""
+    fails = []
+    stats = {"rollbacks_ok": 0, "rollbacks_refused": 0, "creates": 0, "retakes": 0, "pure_checked": 0}
+    def fail(c, k, sig, what):
+        fails.append({"kind": "oracle", "signature": sig, "what": f"{c['id']}[{c['backend']}] step {k} `{c['ops'][k]}`: {what}",
+                      "replay_body": case_text(c, min(k + 1, len(c['ops']) - 1), what), "case": c, "step": k})
+    for c in cases:
+        taken = {}     # (gid, name) -> parsed dump at snapshot time
+        ops, out = c["ops"], c["impl"]
+        for k, op in enumerate(ops):
+            t = op.split()
+            if not t[0].startswith("snap_") or t[0] == "snap_list":
+                continue
+            if out[k] == "panic":
+                fail(c, k, f"panic:{t[0]}", "the call panicked"); continue
+            if k == 0 or k + 1 >= len(ops) or ops[k - 1] != "dump" or ops[k + 1] != "dump":
+                continue
+            before, after = parse_dump(out[k - 1]), parse_dump(out[k + 1])
+            def live(d):
+                return ({g: {x: v for x, v in gd.items() if x != "snaps"} for g, gd in d["groups"].items()}, d["P"], d["W"], d["Q"], d["mls"])
+            if t[0] == "snap_create":
+                gid, name = int(t[1]), int(t[2])
+                stats["creates"] += 1; stats["pure_checked"] += 1
+                if live(before) != live(after):
+                    fail(c, k, "snapshot-not-pure", "taking a snapshot changed live state")
+                if gid in before["groups"]:
+                    if out[k] != "ok":
+                        sig = "sqlite-snapshot-retake" if (gid, name) in taken else "snapshot-create-failed"
+                        fail(c, k, sig, f"create_group_snapshot of an existing group returned {out[k]}")
+                    else:
+                        if (gid, name) in taken: stats["retakes"] += 1
+                        taken[(gid, name)] = before
+                elif out[k] == "ok":
+                    taken[(gid, name)] = before     # memory: snapshot of a missing group
+            elif t[0] in ("snap_release", "snap_prune"):
+                stats["pure_checked"] += 1
+                if live(before) != live(after):
+                    fail(c, k, "snapshot-not-pure", f"{t[0]} changed live state")
+                if t[0] == "snap_release":
+                    taken.pop((int(t[1]), int(t[2])), None)
+                else:
+                    # pruned snapshots disappear from the listings
+                    for key in list(taken):
+                        g = key[0]
+                        if g in after["groups"] and not any(x.split("@")[0] == str(key[1]) for x in after["groups"][g]["snaps"]):
+                            taken.pop(key)
+            elif t[0] == "snap_rollback":
+                gid, name = int(t[1]), int(t[2])
+                if out[k] != "ok":
+                    stats["rollbacks_refused"] += 1
+                    if (before["groups"], before["P"], before["W"], before["Q"], before["mls"]) != (after["groups"], after["P"], after["W"], after["Q"], after["mls"]):
+                        fail(c, k, "refused-rollback-effect", "a refused rollback changed the store")
+                    continue
+                stats["rollbacks_ok"] += 1
+                d0 = taken.pop((gid, name), None)
+                # frame
+                for g2 in set(before["groups"]) | set(after["groups"]):
+                    if g2 != gid and before["groups"].get(g2) != after["groups"].get(g2):
+                        fail(c, k, "rollback-touches-other-group", f"group {g2} changed by rollback of group {gid}")
+                if (before["P"], before["W"], before["Q"]) != (after["P"], after["W"], after["Q"]):
+                    fail(c, k, "rollback-destroys-records", "processed-message / welcome / processed-welcome records changed")
+                if {g: r for g, r in before["mls"].items() if g != gid} != {g: r for g, r in after["mls"].items() if g != gid}:
+                    fail(c, k, "rollback-touches-other-group", "MLS rows of another group changed")
+                if gid in before["groups"] and gid in after["groups"]:
+                    if before["groups"][gid]["msgs"] != after["groups"][gid]["msgs"]:
+                        fail(c, k, "sqlite-restore-cascade", f"stored messages of group {gid} changed/destroyed by rollback: {before['groups'][gid]['msgs'][:80]} -> {after['groups'][gid]['msgs'][:80]}")
+                    exp = [x for x in before["groups"][gid]["snaps"] if x.split("@")[0] != str(name)]
+                    if after["groups"][gid]["snaps"] != exp:
+                        fail(c, k, "rollback-snapshots", f"snapshots after rollback {after['groups'][gid]['snaps']} != {exp}")
+                # exactness
+                if d0 is not None:
+                    g0, g2 = d0["groups"].get(gid), after["groups"].get(gid)
+                    if (g0 is None) != (g2 is None):
+                        fail(c, k, "rollback-not-exact", "group existence differs from snapshot time")
+                    elif g0 is not None:
+                        for f in ("rec", "relays", "secrets"):
+                            if g0[f] != g2[f]:
+                                fail(c, k, "rollback-not-exact", f"{f} after rollback {g2[f][:100]} != at snapshot time {g0[f][:100]}")
+                    if d0["mls"].get(gid, []) != after["mls"].get(gid, []):
+                        fail(c, k, "rollback-not-exact", "MLS rows differ from snapshot time")
+    return fails, stats
+
+def oracle_c10(cases):
+    """C10 on the implementation alone: the two backends, given the same operation sequence inside both
+    backends' limits, return the same canonical observation at every step (error wording dropped)."""
+    fails = []
+    stats = {"pairs": 0, "steps_compared": 0}
+    by_id = {}
+    for c in cases:
+        by_id.setdefault(c["id"], {})[c["backend"]] = c
+    for cid, pair in by_id.items():
+        if "mem" not in pair or "sql" not in pair or pair["mem"]["ops"] != pair["sql"]["ops"]:
+            continue
+        m, q = pair["mem"], pair["sql"]
+        stats["pairs"] += 1
+        for k, op in enumerate(m["ops"]):
+            a, b = m["impl"][k], q["impl"][k]
+            stats["steps_compared"] += 1
+            if a != b:
+                t = op.split()[0]
+                sig = f"backend-diff:{t}"
+                if "panic" in (a, b):
+                    sig = f"panic:{t}"
+                elif t == "snap_prune":
+                    sig = "sqlite-prune-count"
+                elif t == "find_epoch_by_tag":
+                    sig = "sqlite-like-case" if op.split()[3] == "1" else "tag-search-diff"
+                if t == "snap_rollback" and a == "ok" and b == "err":
+                    # mechanism: the snapshot's Nostr group id is now held by another group
+                    g, nm = op.split()[1], op.split()[2]
+                    nid_now, nid_at_snap = {}, None
+                    for j in range(k):
+                        tj = m["ops"][j].split()
+                        if tj[0] == "save_group" and m["impl"][j] == "ok":
+                            nid_now[tj[1]] = tj[2]
+                        if tj[0] == "snap_create" and tj[1] == g and tj[2] == nm and m["impl"][j] == "ok":
+                            nid_at_snap = nid_now.get(g)
+                    if nid_at_snap is not None and any(v == nid_at_snap for g2, v in nid_now.items() if g2 != g):
+                        sig = "restore-nostr-id-collision"
+                # mechanism: a snapshot was taken of a group that has no record.  Memory stores it (and a
+                # later rollback removes the group); SQLite stores nothing (or fails on the FK).
+                if t in ("snap_create", "snap_rollback", "snap_list", "snap_prune", "dump"):
+                    saved = set()
+                    for j in range(k + 1):
+                        tj = m["ops"][j].split()
+                        if tj[0] == "save_group" and m["impl"][j] == "ok":
+                            saved.add(tj[1])
+                        if tj[0] == "snap_create" and tj[1] not in saved:
+                            sig = "snapshot-of-missing-group"
+                            break
+                what = f"{cid} step {k} `{op}`: memory={a[:200]} sqlite={b[:200]}"
+                fails.append({"kind": "oracle", "signature": sig, "what": what,
+                              "replay_body": case_text(m, k, what) + case_text(q, k, what), "case": m, "step": k})
+                break      # later steps of a diverged pair are not comparable
     return fails, stats
